@@ -29,7 +29,8 @@ const (
 	weightMatchingName = -1
 
 	// weightInheritedName is the weight to use for the edges from typed
-	// arguments to any value vertex whose name matches a name that is being
+	// arguments (and from the same-named value without subtype) to any
+	// value vertex whose name matches a name that is being
 	// produced further up the stack, but not the nearest one (see
 	// callState.Affinity); every level further out adds one. It has to stay
 	// below weightTyped to be a preference at all, and above zero: with the
